@@ -279,6 +279,31 @@ def _closure_of(fa, defs, op):
     return None
 
 
+def _sets_flag(E, fa, s, hm_local):
+    """`has_matched = true`, written to the variable or through a reference to it"""
+    if "lhs" not in s or s["rv"]["k"] != "use" or (op_const(s["rv"]["op"]) or {}).get("int") != 1:
+        return False
+    if s["lhs"]["l"] == hm_local and not s["lhs"]["p"]:
+        return True
+    if not s["lhs"]["p"]:
+        return False
+    if s["lhs"]["p"] != ["*"]:
+        return False
+    cur = s["lhs"]["l"]
+    for _ in range(8):
+        ds = [d for d in fa.defs().get(cur, []) if d[2] != "partial"]
+        if len(ds) != 1 or ds[0][2] != "assign":
+            return False
+        rv = ds[0][3]
+        if rv["k"] == "ref":
+            return rv["place"] == {"l": hm_local, "p": []}
+        pl = op_place(rv["op"]) if rv["k"] == "use" else None
+        if pl is None or pl["p"]:
+            return False
+        cur = pl["l"]
+    return False
+
+
 def judge_per_match_closure(ctx, E, crate, label, cdef, hm_local, where, outer_sets_flag=False):
     """CAND/PAIR obligations read inside a closure that is applied to each lexicon match
     (`|m: LexMatch| { lattice.insert_node(..); has_matched = true; }`)."""
@@ -501,9 +526,7 @@ def cand(ctx):
                     if cl is not None:
                         applied.append((xb, cl))
             if len(applied) == 1 and nb not in fa.reachable(some_t, avoid={applied[0][0]}):
-                hb0 = [b for b in body for s0 in fa.blocks[b]["stmts"]
-                       if "lhs" in s0 and s0["lhs"]["l"] == hm_local and not s0["lhs"]["p"]
-                       and s0["rv"]["k"] == "use" and (op_const(s0["rv"]["op"]) or {}).get("int") == 1]
+                hb0 = [b for b in body for s0 in fa.blocks[b]["stmts"] if _sets_flag(E, fa, s0, hm_local)]
                 outer_flag = bool(hb0) and nb not in fa.reachable(some_t, avoid=set(hb0))
                 judge_per_match_closure(ctx, E, crate, label, cdefs[applied[0][1]], hm_local,
                                         fa.loc(applied[0][0]), outer_flag)
@@ -513,9 +536,7 @@ def cand(ctx):
                "every %s-lexicon match becomes a lattice node" % label if oki else
                "a %s-lexicon match can be skipped without inserting a node" % label)
         # has_matched = true on every trip through the body
-        hb = [b for b in body for s in fa.blocks[b]["stmts"]
-              if "lhs" in s and s["lhs"]["l"] == hm_local and not s["lhs"]["p"]
-              and s["rv"]["k"] == "use" and (op_const(s["rv"]["op"]) or {}).get("int") == 1]
+        hb = [b for b in body for s in fa.blocks[b]["stmts"] if _sets_flag(E, fa, s, hm_local)]
         okh = bool(hb) and nb not in fa.reachable(some_t, avoid=set(hb))
         ctx.ob("CAND", "add_lattice_edges|%s-sets-has_matched" % label, okh, fa.loc(nb),
                "a %s-lexicon match sets the flag passed to gen_unk_words (so invoke=0 categories "
@@ -1308,10 +1329,41 @@ def charrange(ctx):
         raise EngineError("CHARRANGE: construction of CharRange not found")
     st, sc = _lin(agg["start"])
     et, ec = _lin(agg["end"])
-    first_is_radix = "from_str_radix" in st
-    ok = sc == 0 and ec == 1 and first_is_radix and "from_str_radix" in et or \
-        (sc == 0 and ec == 1 and first_is_radix and ("phi" in et or "var" in et))
-    ctx.ob("CHARRANGE", "%s|end-is-upper-bound-plus-one" % P_PR, ok, fn_loc(crate, P_PR),
+    # which columns of the split range text each bound is computed from: `r[0]` / `r.get(1)`
+    from flow import back_slice
+
+    def column(b, t):
+        nm = {strip_generics(x).rsplit("::", 1)[-1] for x in callee_paths(t)}
+        if nm & {"index", "get", "get_unchecked", "nth"} and len(t["args"]) == 2:
+            k = op_const(t["args"][1])
+            if k is None:
+                o = fa.origin(t["args"][1])
+                k = o[1] if o[0] == "const" else None
+            if k is not None and "int" in k:
+                return ("col", k["int"])
+        if nm & {"first"}:
+            return ("col", 0)
+        if nm & {"last"}:
+            return ("col", "last")
+        return None
+    agg_ops = None
+    for b, i, s in fa.stmts():
+        rv = s.get("rv")
+        if rv and rv["k"] == "agg" and str(rv.get("adt", "")).endswith("CharRange"):
+            agg_ops = dict(zip(rv["fields"], rv["ops"]))
+    scol = {x[1] for x in back_slice(fa, agg_ops["start"], column) if x[0] == "col"}
+    ecol = {x[1] for x in back_slice(fa, agg_ops["end"], column) if x[0] == "col"}
+    radix = bool(calls_named(fa, "from_str_radix"))
+    okcols = radix and scol == {0} and 1 in ecol and ecol <= {0, 1}
+    ok = sc == 0 and ec == 1 and okcols
+    if sc == 0 and ec == 1 and not okcols:
+        ctx.ob("CHARRANGE", "%s|end-is-upper-bound-plus-one" % P_PR, False, fn_loc(crate, P_PR),
+               "the lower bound of a char.def range is computed from column(s) %s and the upper "
+               "bound from column(s) %s of `LOW..HIGH` (expected {0} and {0, 1})"
+               % (sorted(map(str, scol)), sorted(map(str, ecol))))
+        ok = None
+    if ok is not None:
+        ctx.ob("CHARRANGE", "%s|end-is-upper-bound-plus-one" % P_PR, ok, fn_loc(crate, P_PR),
            "CharRange{start: lower bound, end: upper bound + 1}" if ok else
            "CharRange is built with start offset %+d and end offset %+d from the parsed bounds "
            "(expected +0 / +1): the upper bound is not inclusive" % (sc, ec))
